@@ -29,20 +29,6 @@ func c18Check(text string) {
 	symAssert(stripCRLF(back) == stripCRLF(text), "text-preserved-apart-from-line-normalisation")
 }
 
-// one Latin-1 representable character, symbolic: any ASCII byte (including
-// CR, LF, NUL) or a two-byte UTF-8 sequence for U+0080..U+00FF
-func c18SymChar() string {
-	if symInt(0, 1) == 0 {
-		b := symByte()
-		symAssume(b < 0x80)
-		return string([]byte{b})
-	}
-	lead, cont := symByte(), symByte()
-	symAssume(lead == 0xc2 || lead == 0xc3)
-	symAssume(cont >= 0x80 && cont <= 0xbf)
-	return string([]byte{lead, cont})
-}
-
 // C18 K1: every text of up to N Latin-1 representable characters
 func H_c18_short() {
 	N := symParam("N", 3)
